@@ -59,7 +59,8 @@ chk("C12", "E1 tabsym", "model_checking", _SUGAR + "corpus: calculator, right/no
     "nested occurrences, outside references, plus a VERIF_SEED-driven shuffled operator table.", E1_NOTE,
     "bounded model checking (Kani/CBMC): tables of the annotated grammar vs CYK over the independently tiered grammar", "DESIGN.md §3 C12")
 chk("C13", "E1 tabsym", "model_checking", _SUGAR + "corpus: Comma<T>, X*/X+/X? on terminals, nonterminals and groups, conditions == != ~~ !~ over three instantiations, nested "
-    "macro uses, close-but-distinct instantiations, forwarding of parameters. Values (Vec/Option/tuple) are not covered here.", E1_NOTE,
+    "macro uses, close-but-distinct instantiations, forwarding of parameters. Value half (engine E2, grammar act_reps): X+ productions push/append in input order, the action of an alternative using X*, X?, groups receives "
+    "empty Vec / the X+ Vec, None / Some, the selected symbol.", E1_NOTE + " " + E2_NOTE,
     "bounded model checking (Kani/CBMC): tables of the macro grammar vs CYK over the substituted grammar", "DESIGN.md §3 C13")
 chk("C14", "E1 tabsym", "model_checking", _SUGAR + "for every subset of the inlinable nonterminals of each base grammar (all 2^k, k<=3 in thorough; none/all/singletons in quick) "
     "the tables are equivalent to the same specification CFG; order half (engine E2): per real reduce step of the inlined grammars the inlined actions run left to right just before the outer one, a failing inlined action is returned verbatim. "
@@ -69,7 +70,8 @@ chk("C15", "E1 tabsym", "model_checking", _SUGAR + "for every feature set (all 2
     "__token_to_integer must map every active terminal; plus generator-verdict differential against the physically deleted grammar.", E1_NOTE,
     "bounded model checking (Kani/CBMC) per exhaustively enumerated feature set: tables vs CYK over the deleted grammar", "DESIGN.md §3 C15")
 chk("C25", "E1 tabsym", "model_checking", "PARTIAL (nonterminal/macro/macro-parameter names only): " + _SUGAR + "for adversarial renamings (`__`-prefixed names, names LALRPOP "
-    "derives internally, `Name<level>` next to a precedence-annotated `Name`, seeded picks) the generator's verdict is unchanged and the renamed tables are equivalent to the same specification CFG.",
+    "derives internally, `Name<level>` next to a precedence-annotated `Name`, two annotated nonterminals whose generated level names coincide, seeded picks) the generator's verdict is unchanged and the renamed tables are equivalent to the same specification CFG. "
+    "Plus a compile differential (observed with rustc, not a solver verdict) on renamings of a grammar parameter and of bindings; two known findings (parameter named v / e).",
     E1_NOTE, "bounded model checking (Kani/CBMC) of tables generated from adversarially renamed grammars vs the unchanged CYK oracle", "DESIGN.md §3 C25")
 chk("C28", "kernels", "model_checking",
     "Kani on lalrpop-util/src/lib.rs: map_location/map_token/map_error on a fully symbolic ParseError<u8,u16,u32> (all variants, all payload values; call order and count of the "
@@ -85,15 +87,18 @@ chk("C09", "E4 lexsym", "translation_validation",
     "PARTIAL (generator side decided symbolically; runtime loop on native runs): for each accepted corpus terminal set z3 decides, for ALL input strings up to L code points "
     "(quick 3, thorough 5) over the compressed alphabet, that 'longest prefix, then largest emitted pattern index, then the emitted skip flag / Token(i,_) mapping' picks the same length "
     "and the same terminal (or skip) as 'longest prefix, then documented precedence' on the source match block. Whole tokenizations incl. byte-offset spans and InvalidToken positions are compared "
-    "on the real Matcher for all strings up to length 3 over class representatives.", E4_NOTE,
+    "on the real Matcher for all strings up to length 3 over class representatives. Terminal sets: hand-written corpus (rungs, renamings, `_`, skip rules in every rung position, non-ASCII) "
+    "plus VERIF_SEED-driven random match blocks (quick 40, thorough 600).", E4_NOTE,
     "SMT (z3 regex/sequence theory) over the generator's emitted lexer tables vs the documented precedence rules; symbolic input string", "DESIGN.md §2 E4, §3 C09")
 chk("C10", "E4 lexsym", "translation_validation",
     "For every corpus literal (all printable ASCII characters, pairs of regex metacharacters, quotes/backslashes/control characters, non-ASCII, combining marks, regex-looking words) and every corpus regex "
-    "(classes, negation, repetition bounds, alternation, groups, flags, Unicode classes, escapes) z3 decides over ALL strings that the pattern text the generator emitted denotes exactly {s} / exactly L(re).", E4_NOTE,
+    "(classes, negation, repetition bounds, alternation, groups, flags, Unicode classes, escapes) z3 decides over ALL strings that the pattern text the generator emitted denotes exactly {s} / exactly L(re); also for grammars that declare a literal and a regex with the SAME source text, "
+    "and for seeded random literals/regexes (quick 70, thorough 600).", E4_NOTE,
     "SMT (z3 regex theory): language equivalence of emitted pattern vs source pattern, unbounded strings, alphabet compression", "DESIGN.md §3 C10")
 chk("C11", "E4 lexsym", "translation_validation",
     "For every corpus terminal set (match rungs, literals vs regexes, non-ASCII literals vs Unicode classes, covered overlaps, unsupported features) z3 decides over ALL strings whether two equal-precedence "
-    "terminals tie on some string no higher-precedence terminal claims; the generator must answer 'ambiguity detected' exactly then, and the unsupported-feature diagnostic for look-around / non-greedy / named captures.", E4_NOTE,
+    "terminals tie on some string no higher-precedence terminal claims; the generator must answer 'ambiguity detected' exactly then, and the unsupported-feature diagnostic for look-around / non-greedy / named captures. "
+    "Corpus: boundary families (every construct overlapping exactly at its boundary / just outside it) plus seeded random terminal sets (quick 60, thorough 1500).", E4_NOTE,
     "SMT (z3 regex theory): non-emptiness of pairwise intersections minus higher-precedence languages vs the generator's verdict", "DESIGN.md §3 C11")
 
 chk("C02", "E2 redsym", "model_checking",
@@ -108,12 +113,14 @@ chk("C06", "E2 redsym", "model_checking",
 chk("C08", "E1+E3+E4", "model_checking",
     "PARTIAL, bounded, per component: (i) LR run over the real tables halts within the derived fuel/stack bound for all inputs <= N (Kani); (ii) every path of the real state_machine.rs driver within the step bounds "
     "(plain, stream/action errors, recovery) returns without panic (native DSE + z3); (iii) built-in lexer progress: z3 finds per terminal set the inputs where only an empty match exists, the real Matcher is run on them "
-    "and on all short strings over class representatives.", E1_NOTE + " " + E3_NOTE,
+    "and on all short strings over class representatives; (iv) integral_indices! (i8/i16/i32 table-entry decoding) for every value: no overflow, decode(encode)=id (Kani); "
+    "recovery progress: after accepts() approved a recovery state the parse never meets an error action before shifting (E3).", E1_NOTE + " " + E3_NOTE,
     "bounded model checking (Kani) of tables + dynamic symbolic execution (z3) of the real driver + z3 regex queries with native runs of the real Matcher", "DESIGN.md §3 C08")
 chk("C16", "E3 symdrive", "model_checking",
     "DRIVER-LEVEL claim: every path of the real driver with recovery on (<= 2 tokens, bounded reductions, 1-2 errors; also with stream/action errors) that ends in Ok satisfies: tree tokens are a subsequence of the input in order, "
     "every other input token lies in the span of exactly one error node, spans ordered/disjoint/not inverted, dropped_tokens lists consecutive and disjoint, states.len()==symbols.len()+1 at every reduce, no recovery without an error action. "
-    "NOT covered: that the tree is a derivation of a concrete grammar.", E3_NOTE,
+    "Tables half (E1): for grammars with `!` the plain LR run over the real tables accepts exactly the sentences derivable without `!` and the terminal name table does not name `!`. "
+    "NOT covered: that the recovered tree is a derivation of a concrete grammar.", E1_NOTE + " " + E3_NOTE,
     "dynamic symbolic execution of the real natively compiled driver; branch feasibility decided by z3 (QF_UFLIA) over uninterpreted tables", "DESIGN.md §2 E3, §3 C16")
 chk("C17", "E2+E3", "model_checking",
     "(a) reduce step (Kani): a fallible action (also inlined, also on the start reduction) failing at a symbolic call index with a symbolic error makes __reduce return Some(Err(User{that error})), push nothing, run no later action; "
